@@ -18,7 +18,8 @@ SDL = ("type Query { obj(" + ", ".join(f"{n}: Int" for n in NAMES) + ", inp: Inp
        "input Inp { " + ", ".join(f"{n}: Int" for n in NAMES) + " }\n")
 OPS = ("query Everything(" + ", ".join(f"${n}: Int" for n in NAMES) + ", $inp: Inp) { obj(" + ", ".join(f"{n}: ${n}" for n in NAMES) + ", inp: $inp) { "
        + " ".join(NAMES) + " } }\n"
-       "query Aliased { obj { " + " ".join(f"{n}: ident" for n in NAMES) + " } }\n")
+       "query Aliased { obj { " + " ".join(f"{n}: ident" for n in NAMES) + " } }\n"
+       "query ViaFragment { obj { ...AllF } }\nfragment AllF on Obj { " + " ".join(NAMES) + " }\n")
 
 SETUP_ERROR = ""
 PK = {}
@@ -40,6 +41,17 @@ RESERVED = set(_u.PYDANTIC_RESERVED_FIELD_NAMES)
 def wire_problem(snake: bool, role: int, ni: int) -> str:
     pkg = PK[snake]
     name = NAMES[ni]
+    if role == 4:
+        # the mapping is a function of the name (and the configuration), not of where the field is selected: the class generated
+        # for a named fragment gives every field the Python name the operation's own class gives it
+        direct, frag = pkg.resolve("everything", "EverythingObj"), pkg.resolve("fragments", "AllF")
+        if direct is None or frag is None:
+            return "class not found"
+        a = {f.key: f.name for f in pkg.all_fields(direct).values()}
+        b = {f.key: f.name for f in pkg.all_fields(frag).values()}
+        if a.get(name) != b.get(name) or name not in b:
+            return f"{name!r}: {a.get(name)!r} when selected directly, {b.get(name)!r} through a named fragment"
+        return ""
     if role in (0, 1, 3):
         if role == 0:
             ci = pkg.resolve("everything", "EverythingObj")
@@ -75,7 +87,7 @@ def wire_problem(snake: bool, role: int, ni: int) -> str:
 def _check(snake: bool, role: int, ni: int) -> bool:
     if SETUP_ERROR:
         return False
-    r, n = pick(role, 4), pick(ni, len(NAMES))
+    r, n = pick(role, 5), pick(ni, len(NAMES))
     with NoTracing():
         try:
             return not wire_problem(snake, r, n)
@@ -173,7 +185,7 @@ def twin_wire_keyword_input_reached(role: int, ni: int) -> bool:
     """
     if SETUP_ERROR:
         return True
-    r, n = pick(role, 4), pick(ni, len(NAMES))
+    r, n = pick(role, 5), pick(ni, len(NAMES))
     with NoTracing():
         ok = not wire_problem(False, r, n)
     return not (ok and r == 1 and NAMES[n] == "from")
